@@ -101,6 +101,9 @@ class ThreadWorker(Worker):
 
     def _get_result(self):
         # _result is set by the child directly
+        if self._result is None and self._started and not self._child.is_alive():
+            # the child is gone without recording its outcome (e.g. terminated while handling an exception)
+            self._result = (False, None)
         return self._result
 
     #
